@@ -265,7 +265,8 @@ def trace_check(wd, name, trace, props, nkeys, layer_i=True, period=1280, timeou
     cfg = os.path.join(wd, name + ".cfg")
     write_cfg(cfg, constants={"NKeys": nkeys, "Batch": 100, "Period": period, "Dev": set(dev),
                               "CheckProps": set(props), "LayerI": layer_i,
-                              "MaxInfo": max(12, 3 * nkeys), "SDev": set(sdev)},
+                              # (the flush-point driver queues up to 64 records, most with an EntryInfo of their own)
+                              "MaxInfo": 80 if "sync-flush" in name else max(12, 3 * nkeys), "SDev": set(sdev)},
               postcondition="Consumed")
     rc, outp, wall = run_tlc(wd, "TraceCheck.tla", cfg, workers=1, timeout=timeout, out=name + ".out",
                              depth_first=True, xmx="6g", env_extra={"TRACE": trace})
